@@ -170,7 +170,7 @@ def run(ctx: Ctx) -> None:
 
     # ... and a deeper one over directory objects only (Dir.copy_to / StagingDir need four operations:
     # two objects, a member, the copy)
-    dcls = ctx.pick(["Dir"], ["Dir", "ContentDir", "IDir"])
+    dcls = ctx.pick(["Dir"], ["Dir", "ContentDir"])
     gcfg = fv.cfg_text("GSpecOps", **U_TWO_DIRS, bytes_=[2], mtimes=[1], classes=dcls, max_objs=2,
                        max_ops=4, **flags, invariants=["Emit"], view=False)
     g = run_tlc("seq/FileValues_Gen.tla", gcfg, ctx.scratch, workers=4, timeout=1500, heap="8g")
@@ -183,7 +183,7 @@ def run(ctx: Ctx) -> None:
     mark("tree4_replay")
 
     # ---- 4. spec -> code: long simulated behaviours ---------------------------------------------
-    nsim = ctx.pick(120, 3000)
+    nsim = ctx.pick(120, 1000)
     depth = ctx.pick(6, 8)
     scfg = fv.cfg_text("GSpecOps", **U_FULL, bytes_=[1, 2, 3, 4], mtimes=[1, 2], classes=fv.ALL_CLS, max_objs=3,
                        max_ops=depth, **flags, invariants=["EmitSim"], view=False)
@@ -200,7 +200,7 @@ def run(ctx: Ctx) -> None:
     ctx.note("replay_stats", stats)
 
     # ---- 5. code -> spec: random executions validated by TLC -----------------------------------
-    ntr = ctx.pick(250, 2500)
+    ntr = ctx.pick(250, 1500)
     tu = dict(dirs=["d", "e", "g"], names=["a", "b"], bytes_=[1, 2, 3, 4], mtimes=[1, 2, 3])
     traces = []
     for n in range(ntr):
